@@ -182,6 +182,10 @@ func (in *Interp) toPrimitive(v goja.Value, hint string) goja.Value {
 	if !ok {
 		return v
 	}
+	if isCallable(o) {
+		// the source text of a function (Function.prototype.toString) is outside the modelled subset
+		unsupported("conversion of a function to a primitive")
+	}
 	ex := in.getV(o, in.symToPrim)
 	if !goja.IsUndefined(ex) && !goja.IsNull(ex) {
 		if !isCallable(ex) {
